@@ -298,7 +298,7 @@ func Tokenize(source string) ([]Token, error) {
 			// Single line comment.
 			token = newToken(matches[1], COMMENT, ogRow, ogColumn)
 			i += len(matches[0])
-		} else if match := regexp.MustCompile(`^(true|false)`).FindString(source[i:]); match != "" {
+		} else if match := regexp.MustCompile(`^(true|false)\b`).FindString(source[i:]); match != "" {
 			// Create bool token.
 			token = newToken(match, BOOL_LITERAL, ogRow, ogColumn)
 			i += len(match)
